@@ -15,12 +15,13 @@ PLAIN_META = ['status', 'note', 'confidenceScore']
 
 class Style:
     def __init__(self, quote='"', reverse_attrs=False, explicit_defaults=False,
-                 comments=False, charrefs=False, indent=True, self_close=True, tagcomments=False):
+                 comments=False, charrefs=False, indent=True, self_close=True, tagcomments=False, cdata=False):
         self.quote = quote
         self.reverse_attrs = reverse_attrs
         self.explicit_defaults = explicit_defaults
         self.comments = comments
         self.tagcomments = tagcomments      # comments / processing instructions whose text looks like markup
+        self.cdata = cdata                  # element text written as a CDATA section (unescaped)
         self.charrefs = charrefs      # write non-ASCII as &#N;
         self.indent = indent
         self.self_close = self_close
@@ -114,7 +115,10 @@ class W:
             self.line(f'<{tag}{self.attrs(pairs, meta)}></{tag}>')
 
     def text(self, tag, text, pairs=(), meta=None):
-        self.line(f'<{tag}{self.attrs(pairs, meta)}>{esc_text(text, self.st)}</{tag}>')
+        if self.st.cdata and ']]>' not in str(text) and '\r' not in str(text):
+            self.line(f'<{tag}{self.attrs(pairs, meta)}><![CDATA[{text}]]></{tag}>')
+        else:
+            self.line(f'<{tag}{self.attrs(pairs, meta)}>{esc_text(text, self.st)}</{tag}>')
 
 
 def _bool(v, st, default=True):
